@@ -1037,3 +1037,29 @@ def _iter_repo_objects(x):
 
 
 V.ITER_HOOKS.append(_iter_repo_objects)
+
+
+def _m_getattr(obj, name, *default):
+    try:
+        return Interp.cur.getattr(obj, unwrap(name))
+    except AttributeError:
+        if default:
+            return default[0]
+        raise
+
+
+def _m_hasattr(obj, name):
+    try:
+        Interp.cur.getattr(obj, unwrap(name))
+        return True
+    except AttributeError:
+        return False
+
+
+def _m_setattr(obj, name, v):
+    Interp.cur.setattr(obj, unwrap(name), v)
+
+
+for _f in (_m_getattr, _m_hasattr, _m_setattr):
+    _f.__symx_model__ = True
+V.BUILTIN_MODELS.update(getattr=_m_getattr, hasattr=_m_hasattr, setattr=_m_setattr)
